@@ -91,6 +91,47 @@ theorem C16_nodeIds_regions (f : Nat) (pairs : List (Pragma × Pragma)) (xs : Li
     nodeIdsList (regAtt f pairs xs) = nodeIdsList xs := by
   rw [← nodeIds_unregList (regAtt f pairs xs), C16_regions_roundtrip_partial f pairs xs h, nodeIds_unregList]
 
+/-! ## mixed `pragma_post` flags and non-LIFO interleavings -/
+
+/-- detaching in two steps: a detach with flag `b` followed by one with flag `a` (same node types) is the detach with
+flag `a || b`; in particular `detach_pragma_post=False` leaves the `pragma_post` slots intact and a later full detach
+re-inserts them -/
+theorem C16_detach_detach (T : List String) (a b : Bool) (ys : List Item) :
+    detachList T a (detachList T b ys) = detachList T (a || b) ys := detach_detach_list T a b ys
+
+/-- `attach_pragmas(ir, T)`; `detach_pragmas(ir, T, detach_pragma_post=False)`; `detach_pragmas(ir, T)` -/
+theorem C16_mixed_flags (T : List String) (xs : List Item) :
+    detachList T true (detachList T false (attachList T true xs)) = detachList T true xs := by
+  rw [detach_detach_list, Bool.true_or, C16_full]
+
+theorem C16_mixed_flags_clean (T : List String) (xs : List Item) (hc : cleanList xs = true) :
+    detachList T true (detachList T false (attachList T true xs)) = xs := by
+  rw [C16_mixed_flags, detachList_clean T true xs hc]
+
+/-- an inner `pragmas_attached(…, attach_pragma_post=False)` inside an outer `pragmas_attached(…)` (also when the inner
+body raises: the two exit parts still run in this order) -/
+theorem C16_nested_mixed_contexts (T : List String) (xs : List Item) :
+    detachList T true (detachList T false (attachList T false (attachList T true xs))) = detachList T true xs := by
+  rw [C16_full T false, detach_detach_list, Bool.true_or, C16_full]
+
+/-- the pragma detacher and the region detacher commute -/
+theorem C16_detach_unreg_comm (T : List String) (post : Bool) (xs : List Item) :
+    detachList T post (unregList xs) = unregList (detachList T post xs) := detach_unreg_list T post xs
+
+/-- the non-LIFO interleaving `attach_pragma_regions; attach_pragmas; detach_pragma_regions; attach_pragmas; detach_pragmas`:
+outside the open class `region-index-by-value` the result is what detaching the input gives (the input itself for
+frontend state) -/
+theorem C16_interleaved_regions (T : List String) (post : Bool) (f : Nat) (pairs : List (Pragma × Pragma)) (xs : List Item)
+    (h : KnownRegionIndex f pairs xs = false) :
+    detachList T post (attachList T post (unregList (attachList T post (regAtt f pairs xs)))) =
+      detachList T post (unregList xs) := by
+  rw [C16_full, detach_unreg_list, C16_full, ← detach_unreg_list, C16_regions_roundtrip_partial f pairs xs h]
+
+theorem C16_interleaved_regions_clean (T : List String) (post : Bool) (f : Nat) (pairs : List (Pragma × Pragma))
+    (xs : List Item) (h : KnownRegionIndex f pairs xs = false) (hf : regionFreeList xs = true) (hc : cleanList xs = true) :
+    detachList T post (attachList T post (unregList (attachList T post (regAtt f pairs xs)))) = xs := by
+  rw [C16_interleaved_regions T post f pairs xs h, unregList_free xs hf, detachList_clean T post xs hc]
+
 /-! ## dataflow fields -/
 
 def C16_dataflow_full : Prop :=
